@@ -73,6 +73,37 @@ def analyse(ctx, replace=None, only=None):
     dump(R, fns)
     dispatch(R, P)
     frames(R, fns)
+    init_and_records(R, fns, P)
+
+
+def init_and_records(R, fns, P):
+    """LEVEL/init: the level the tracer stores is the level after the `no backtrace support` clamp (no assignment to the
+    local level can follow the store); TRACK/record: the per-allocation record is zero-initialised (calloc) or every one of
+    its fields is assigned on every path - the dump reads `stack` at every level"""
+    f = fns["s_alloc_tracer_init"]
+    st = [e for e in f.field_accesses(rec="alloc_tracer", field="level", modes=("w",))]
+    later = []
+    for s in st:
+        for e in RU.reach_from(f, s):
+            if e.kind == "access" and e.mode in ("w", "rw") and e.node["k"] == "var" and e.node.get("n") == "level":
+                later.append(e)
+    R.check(len(st) >= 1 and not later, "LEVEL", "init:stores-the-clamped-level", where(f, st[0]) if st else f.name, "tracer->level is stored after the last adjustment of the requested level",
+            "tracer->level is stored before the level is clamped for platforms without backtrace support (the clamp at line %s only changes the local): a STACKS request stays STACKS there and the first allocation aborts on the empty stack" % [e.line for e in later][:2])
+    g = fns["s_alloc_tracer_track"]
+    rec = P.records.get("alloc_info")
+    allocs = [e for e in g.calls({"aws_mem_calloc", "aws_mem_acquire"}) if g.is_const(RU.arg(g, e.node, len(e.node.get("a", [])) - 1)) == (rec or {}).get("size")]
+    if R.require(rec is not None and len(allocs) == 1, "s_alloc_tracer_track: record allocation not found"):
+        zeroed = allocs[0].node["callee"] == "aws_mem_calloc"
+        missing = []
+        if not zeroed:
+            for fd in rec["fields"]:
+                ws = [e for e in g.field_accesses(rec="alloc_info", field=fd["n"], modes=("w",))] + [e for e in g.all_events() if e.kind == "call" and any("alloc->%s" % fd["n"] in g.show(a) and "&" in g.show(a) for a in e.node.get("a", []))]
+                wp = {w.pos for w in ws}
+                ts = Typestate(g, "pre", lambda e, s, wp=wp, ap=allocs[0].pos: 0 if e.pos == ap else (1 if e.pos in wp and s == 0 else s))
+                if not ws or 0 in {s_ for s_ in ts.exit_states}:
+                    missing.append(fd["n"])
+        R.check(zeroed or not missing, "TRACK", "record-fully-initialised", where(g, allocs[0]), "the allocation record is calloc'ed" if zeroed else "every field of the record is assigned on every path",
+                "the allocation record comes from %s and its field(s) %s are not assigned on every path: at the BYTES level `stack` is heap garbage, which aws_mem_tracer_dump then follows" % (allocs[0].node["callee"], missing))
 
 
 def dispatch(R, P):
@@ -355,6 +386,9 @@ def dump(R, fns):
 
 
 MUTANTS = [
+    {"name": "level-stored-before-the-clamp", "file": FILE, "expect": "LEVEL", "old": "    void *stack[1];\n    if (!aws_backtrace(stack, 1)) {", "new": "    tracer->level = level;\n    void *stack[1];\n    if (!aws_backtrace(stack, 1)) {",
+     "old2": "    tracer->traced_allocator = traced_allocator;\n    tracer->level = level;\n", "new2": "    tracer->traced_allocator = traced_allocator;\n"},
+    {"name": "record-not-zeroed", "file": FILE, "expect": "TRACK", "old": "    struct alloc_info *alloc = aws_mem_calloc(aws_default_allocator(), 1, sizeof(struct alloc_info));", "new": "    struct alloc_info *alloc = aws_mem_acquire(aws_default_allocator(), sizeof(struct alloc_info));"},
     {"name": "realloc-shrink-shortcut-before-dispatch", "file": "source/allocator.c", "expect": "VTABLE", "old": "    if (allocator->mem_realloc) {\n        void *newptr = allocator->mem_realloc(allocator, *ptr, oldsize, newsize);", "new": "    if (*ptr && newsize <= oldsize) {\n        return AWS_OP_SUCCESS;\n    }\n    if (allocator->mem_realloc) {\n        void *newptr = allocator->mem_realloc(allocator, *ptr, oldsize, newsize);"},
     {"name": "frame-buffer-fixed-at-128", "file": FILE, "expect": "TRACK", "old": "        AWS_VARIABLE_LENGTH_ARRAY(void *, stack_frames, (FRAMES_TO_SKIP + tracer->frames_per_stack));", "new": "        void *stack_frames[128];"},
     {"name": "realloc-track-before-untrack", "file": FILE, "expect": "VTABLE",
